@@ -38,6 +38,11 @@ struct Mon {
             if (i != n - i && (s.position(i) == s.position(n - i) || !(s.position(i) != s.position(n - i)))) bad(std::string("sequence:iterator-equality:different-positions-equal:") + owner, "iterators at different positions of one sequence compare equal");
          }
          if (s.begin() == other.begin() || s.end() == other.end()) bad(std::string("sequence:iterator-equality:other-sequence-equal:") + owner, "begin() / end() compare equal to those of another sequence object of the same length");
+         // position(i) is the pair (sequence, i) for every i, also beyond the current end (such an iterator is not dereferenced):
+         // it is what end() becomes after i - size() increments, and no two of them are equal
+         {  auto e1 = s.end(); ++e1; auto e2 = e1; ++e2;
+            if (!(s.position(n + 1) == e1) || !(s.position(n + 2) == e2) || s.position(n + 1) == s.end() || s.position(n + 1) == s.position(n + 2) || s.position(n + 3) == s.position(n))
+               bad(std::string("sequence:position-beyond-end:") + owner, "position(size() + k) is not end() advanced k times (or compares equal to another position)"); }
       }
       std::size_t steps = 0;
       auto it = s.begin();
@@ -268,6 +273,7 @@ void across_growth(Mon& M, const char* owner, const Sequence<T>& s, int before, 
    for (int i = 0; i < before; ++i) grow();
    const std::size_t n0 = s.size();
    auto b0 = s.begin(); auto e0 = s.end(); auto m0 = s.position(n0 / 2);
+   auto beyond0 = s.position(n0 + 1);           // a position the sequence does not have yet (never dereferenced until it does)
    if (n0 > 0) (void)&*b0;                      // an iterator that had been dereferenced
    for (int i = 0; i < added; ++i) grow();
    const std::size_t n1 = s.size();
@@ -278,6 +284,8 @@ void across_growth(Mon& M, const char* owner, const Sequence<T>& s, int before, 
    if (!(b0 == s.begin()) || b0 != s.position(0)) bad("begin", "begin() taken before the sequence grew is not begin() / position(0) any more");
    if (!(e0 == s.position(n0)) || (e0 == s.end()) != (added == 0)) bad("end", "end() taken before the sequence grew is not position(old size)");
    if (!(m0 == s.position(n0 / 2))) bad("position", "position(i) taken before the sequence grew is not position(i) any more");
+   if (!(beyond0 == s.position(n0 + 1))) bad("position-beyond-the-old-end", "position(old size + 1), taken before the sequence grew, is not position(old size + 1) afterwards");
+   if (added >= 2) { try { if (&*beyond0 != &*s.position(n0 + 1)) bad("position-beyond-the-old-end", "position(old size + 1), taken before the sequence grew, does not designate the second element added"); } catch (const std::exception& e) { bad("raised", std::string("reading the second element added through position(old size + 1) taken before the growth raised ") + e.what()); } }
    std::size_t steps = 0; auto it = b0;
    try {
       while (it != s.end() && steps <= n1 + 2) { if (&*it != &*s.position(steps)) { bad("walk", "walking on from an iterator taken before the growth reaches another element than position(i)"); break; } ++it; ++steps; }
